@@ -4,8 +4,8 @@ from vrun import Job
 LEVEL = 'exploration'
 RULE = ('h_lru: br_ssl_session_cache_lru driven through its vtable (save/load) and _forget; reference models (lrumodel.h) and a structural '
         'walker are evaluated after every operation. (A) every operation sequence over {save, load, forget} x 6 adversarial IDs to depth 4 '
-        '(quick) / 5 (thorough), from an empty cache and from a cache pre-filled to capacity, for store lengths 100c+{0,1,99}, c=0..4, x 8 '
-        'masking hashes (SHA-256/1/384/224/512, MD5 and two constant-output hash classes that let the harness choose the index order) '
+        '(quick) / 5 (thorough), from an empty cache and from a cache pre-filled to capacity, for store lengths 100c+{0,1,99}, c=0..4, x 4 (quick) / 8 (thorough) '
+        'masking hashes (SHA-256, SHA-1 and two constant-output hash classes that let the harness choose the index order; thorough and part C add SHA-384/224/512 and MD5) '
         'x cache keys drawn from a per-configuration DRBG seed; (B) every store length 0..99; (C) random histories of 10^4 operations, capacity '
         '1..200, ID universe 3 x capacity, kinds exact-domain / with forget / anything, ascending, descending, zig-zag and random save order. '
         'Histories are classified on the fly: exact domain (LRU map of capacity floor(len/100): hit/miss, values, recency), forget domain '
@@ -36,11 +36,11 @@ NW = 16
 
 def jobs(tier, seed):
     if tier == 'quick':
-        lru = ['--depth', 4, '--small-depth', 3, '--keys', 1, '--random', 200, '--oplen', 10000]
+        lru = ['--depth', 4, '--small-depth', 3, '--keys', 1, '--hashes', 4, '--random', 200, '--oplen', 10000]
         res = ['--cases', 720]
         to = 600
     else:
-        lru = ['--depth', 5, '--small-depth', 4, '--keys', 2, '--random', 2000, '--oplen', 10000]
+        lru = ['--depth', 5, '--small-depth', 4, '--keys', 2, '--hashes', 8, '--random', 2000, '--oplen', 10000]
         res = ['--cases', 12000]
         to = 3600
     js = [Job('lru%d' % i, 'h_lru', ['--seed', seed, '--worker', i, '--nworkers', NW] + lru, timeout=to)
